@@ -211,6 +211,12 @@ func runC04(p *P, r *R) {
 		}
 	}
 
+	// R04.6 element and header layout: producer and consumer (possibly in different processes) agree on where the
+	// cursors, the flag and each element field live, and on which half of the mapping is whose queue (shared with C03)
+	borrow(p, r, "C03", runC03, map[string]string{"R03.1": "R04.6", "R03.3": "R04.6"}, func(o Ob) bool {
+		return constructHas(o, "queue")
+	})
+
 	// R04.5 census
 	words := map[string]bool{"*queue.head": true, "*queue.tail": true, "*queue.workingFlag": true}
 	n := 0
